@@ -27,9 +27,16 @@ RULE = ('2-3 engines, histories of 6-24 operations each over {atom, assert_fact/
         'cases rule bodies call asserta/assertz/retract/retractall and queries are started on these builtins themselves), clear, '
         'start/next/close/drop/drain of query generators in 3 slots, peek at variables between steps}, merged by a random '
         'schedule with bursts; every '
-        'history ends with read-back queries of all predicates. Non-trivial: two engines hold different contents under '
-        'one predicate name and at some point of the schedule at least two query generators are suspended on an answer '
-        'simultaneously. Distinct by hash of the case.')
+        'history ends with read-back queries of all predicates. Family NL (45 quick / 400 thorough): dynamic facts WITH variables '
+        '(shared inside one fact, partially bound) under one key, optionally reached through a rule; 3-6 generator slots on that '
+        'predicate opened / advanced / finished in non-nested order (mostly oldest first: closed, dropped, replaced, exhausted '
+        'while a younger one stays suspended, then a new one), query patterns from a small pool of constants (clash / compatible). '
+        'Family SC: K generators (3-8 with depths 2-14, compared with the Coq model; K in {5,20,40} with depths 100-200, metamorphic '
+        'oracle only) suspended inside recursive predicates at the same time, advanced in chunks in random order, then probe '
+        'queries (shallow and deep), closes oldest-first / random, more probes. Non-trivial: (mixed) two engines hold different '
+        'contents under one predicate name and at least two generators are suspended on an answer simultaneously; (NL) >= 3 '
+        'generators on one predicate and a non-LIFO finish followed by a new start while the younger one is live; (SC) >= 3 '
+        'suspended at once. Distinct by hash of the case.')
 TRUSTED_BASE = [
     'Coq 8.16.1 kernel (coqc); vm_compute for the in-Coq evaluation of the model on every case',
     'no axioms: all C04 theorems are closed under the global context',
@@ -661,6 +668,7 @@ def _model_errors(mo):
 
 MODEL_SKIPPED = [0]
 MODEL_CYCLIC = [0]
+MODEL_BY_FAMILY = {}     # family -> [compared with the model, cyclic match (skipped), fuel / outside the model (skipped)]
 
 def _first_diff(a, b):
     for e, (x, y) in enumerate(zip(a, b)):
@@ -675,6 +683,8 @@ def compare(case, io, mo):
     if not isinstance(io, dict):
         return None
     codes = _model_errors(mo)
+    fam = MODEL_BY_FAMILY.setdefault(case.get('family', 'mixed'), [0, 0, 0])
+    fam[1 if (2 in codes or 9 in codes) else 2 if codes else 0] += 1
     if 2 in codes or 9 in codes:
         MODEL_CYCLIC[0] += 1
         return None            # cyclic match: unspecified
@@ -1399,7 +1409,7 @@ def _suspended_profile(case):
     active = set()
     best = 0
     for e, op in schedule_ops(case):
-        if op[0] == 'next':
+        if op[0] in ('next', 'adv'):
             active.add((e, op[1]))
         elif op[0] in ('close', 'drain', 'start'):
             active.discard((e, op[1]))
@@ -1426,6 +1436,10 @@ def nontrivial(case, io):
             for k in per[i]:
                 if k in per[j] and per[i][k] != per[j][k]:
                     differ = True
+    if case.get('family') == 'nl':
+        return any(st >= 3 and ev >= 1 for st, ev in map(nonlifo_profile, case['hist']))
+    if case.get('family') == 'sc':
+        return _suspended_profile(case) >= 3
     return differ and _suspended_profile(case) >= 2
 
 def describe(case):
@@ -1463,7 +1477,25 @@ def _without(case, e, drop):
     c['sched'] = sched
     return c
 
+def _shrink_sc(case):
+    """scale family (every candidate costs seconds): whole engines, then all operations of groups of generator slots"""
+    for e in range(case['neng']):
+        if len(case['hist'][e]) > 1:
+            yield _without(case, e, set(range(len(case['hist'][e]))))
+    for e in range(case['neng']):
+        h = case['hist'][e]
+        slots = sorted({op[1] for op in h if op[0] in SLOT_OPS})
+        for parts in (2, 4, 8):
+            if len(slots) >= parts:
+                step = len(slots) // parts
+                for i in reversed(range(parts)):
+                    grp = set(slots[i * step: len(slots) if i == parts - 1 else (i + 1) * step])
+                    yield _without(case, e, {k for k, op in enumerate(h) if op[0] in SLOT_OPS and op[1] in grp})
+
 def shrink(case):
+    if case.get('family') == 'sc':
+        yield from _shrink_sc(case)
+        return
     # big pieces first: the whole history of one engine, halves and quarters of a history, then single operations
     # (later operations first)
     for e in range(case['neng']):
@@ -1485,8 +1517,23 @@ def distribution(cases, obs):
     d = {'engines': {}, 'ops': {}, 'history_len': {}, 'max_suspended': {}, 'answers_per_next': {'ans': 0, 'done': 0},
          'raised': 0, 'scripts': {}, 'same_engine_oracle_runs': 0, 'same_engine_oracle_steps': 0,
          'model_not_comparable': MODEL_SKIPPED[0], 'model_cyclic_match_skipped': MODEL_CYCLIC[0],
-         'cases_with_writing_bodies_loaded': 0, 'db_goals_in_loaded_bodies': 0, 'queries_on_db_builtins': 0}
+         'cases_with_writing_bodies_loaded': 0, 'db_goals_in_loaded_bodies': 0, 'queries_on_db_builtins': 0,
+         'families': {}, 'model_by_family[compared,cyclic,fuel]': MODEL_BY_FAMILY,
+         'nl_histories_with_nonlifo_restart_on_one_predicate': 0, 'nl_nonlifo_events': 0, 'nl_facts_with_variables': 0,
+         'sc_cases[K,depth,max_suspended,model]': [], 'sc_note': 'scale cases with depth 100-200 are not evaluated by the Coq model '
+         '(unification fuel 300 / time); their reference is the metamorphic oracle: every generator observes what it observes '
+         'as the only generator on an engine with the same database history (run d), plus fresh-alone = interleaved'}
     for c, o in zip(cases, obs):
+        fam = c.get('family', 'mixed')
+        d['families'][fam] = d['families'].get(fam, 0) + 1
+        if fam == 'nl':
+            for h in c['hist']:
+                st, ev = nonlifo_profile(h)
+                d['nl_histories_with_nonlifo_restart_on_one_predicate'] += 1 if (st >= 3 and ev) else 0
+                d['nl_nonlifo_events'] += ev
+                d['nl_facts_with_variables'] += sum(1 for op in h if op[0] == 'assert' and any(_has_var(a) for a in op[3]))
+        if fam == 'sc':
+            d['sc_cases[K,depth,max_suspended,model]'].append([c['K'], c['depth'], _suspended_profile(c), not c.get('nomodel')])
         nw = 0
         for h in c['hist']:
             for op in h:
